@@ -60,13 +60,12 @@ def nTypes : Nat := legendTypes.length
 def nMods : Nat := legendMods.length
 
 /-- Which known deviation explains a token that does not cover its lexeme (source token `t`,
-    model token `s`); `none` = unexplained.  The only open one is `crlf-comment-length`; the
-    findings code-length, quoted-commodity-length, tag-byte-offsets, tag-search-position,
-    text-trimmed-position and nonbmp-column are repaired and excuse nothing any more. -/
-def excuse (s : SemToken) (t : Token) : Option String :=
-  let isTag := t.ty == .comment && (s.ty == tyTag || s.ty == tyTagValue)
+    model token `s`); `none` = unexplained.  None is open: the findings crlf-comment-length,
+    code-length, quoted-commodity-length, tag-byte-offsets, tag-search-position,
+    text-trimmed-position and nonbmp-column are repaired and excuse nothing any more
+    (`devPipe` names a shape the current lexer cannot produce; the id is `fixed`). -/
+def excuse (_s : SemToken) (t : Token) : Option String :=
   if devPipe t then some "pipe-position"
-  else if !isTag && devCrComment t then some "crlf-comment-length"
   else none
 
 structure Verdict where
@@ -133,10 +132,11 @@ def verdictFields (v : Verdict) (dom : Bool) : List (String × Json) :=
 def contractOk (d : LDoc) : Bool :=
   extentsB d.text d.toks && cutsB d.text d.toks && (mappedBody d.toks).all (lineOk d.text)
 
-/-- ... together with the one guard of `ordered_disjoint_inline_partial` and
-    `covers_lexeme_partial` (no comment value ends with a CR): when they hold the theorems say
-    the model's tokens are ordered, disjoint, inside their lines, and every token that is not
-    cut out of a comment covers its lexeme. -/
+/-- ... together with the lexer-side fact `lexer_comment_no_cr` (HL/Props/C17.lean: in a text of
+    the property's domain no comment value ends with a CR — proved for the lexer model,
+    re-checked here on the real lexer's output): when they hold `ordered_disjoint_inline` and
+    `covers_lexeme` say the model's tokens are ordered, disjoint, inside their lines, and every
+    token that is not cut out of a comment covers its lexeme. -/
 def hypOk (d : LDoc) : Bool :=
   contractOk d && (mappedBody d.toks).all fun t => !devCrComment t
 
